@@ -38,7 +38,9 @@ theorem mk'_idem (b k : Int) : Dy.mk' (Dy.mk' b k).m (Dy.mk' b k).e = Dy.mk' b k
 
 theorem mk'_add (a b k : Int) : Dy.add (Dy.mk' a k) (Dy.mk' b k) = Dy.mk' (a + b) k := by
   by_cases ha : a = 0
-  · subst ha; simp [Dy.add, Dy.zero, mk'_idem]
+  · subst ha
+    have := mk'_idem b k
+    simpa [Dy.add, Dy.zero] using this
   · by_cases hb : b = 0
     · subst hb; simp [Dy.add, ha, Dy.zero]
     · simp [Dy.add, mk'_of_ne ha, mk'_of_ne hb, ha, hb]
@@ -220,6 +222,26 @@ theorem signIdx_ne_failure (d : Dy) : signIdx d ≠ FAILURE := by
   · rw [h]; decide
   · rw [Int.sign_eq_one_of_pos h]; decide
 
+/-- the decision made from `detleft`, `detright` -/
+def decideIdx (rnd : Dy → Dy) (coef dl dr : Dy) : Int :=
+  if Dy.ge (Dy.abs (rnd (Dy.sub dl dr))) (rnd (Dy.mul (Dy.abs (rnd (Dy.add dl dr))) coef)) then
+    signIdx (rnd (Dy.sub dl dr)) else FAILURE
+
+theorem filterC_eq_decideIdx (rnd : Dy → Dy) (coef ax ay bx by' cx cy : Dy) :
+    orientationIndexFilterC rnd coef ax ay bx by' cx cy =
+      decideIdx rnd coef (rnd (Dy.mul (rnd (Dy.sub ax cx)) (rnd (Dy.sub by' cy))))
+        (rnd (Dy.mul (rnd (Dy.sub ay cy)) (rnd (Dy.sub bx cx)))) := rfl
+
+theorem decideIdx_swap (rnd : Dy → Dy) (hodd : ∀ x, rnd (Dy.neg x) = Dy.neg (rnd x)) (coef dl dr : Dy) :
+    decideIdx rnd coef dr dl = negIdx (decideIdx rnd coef dl dr) := by
+  unfold decideIdx
+  rw [Dy.sub_swap dl dr, hodd, Dy.abs_neg, Dy.add_comm dr dl]
+  split
+  · rw [signIdx_neg]
+    unfold negIdx
+    rw [if_neg (signIdx_ne_failure _)]
+  · simp [negIdx]
+
 /-- **antisymmetry of the filter, arbitrary doubles**: for any rounding function that is odd
 (`rnd (-x) = -(rnd x)`, true of round-to-nearest-even: `roundNE_neg`), swapping the first two points
 negates the filter's answer, and it fails for one order iff it fails for the other. -/
@@ -227,16 +249,8 @@ theorem filter_antisym (rnd : Dy → Dy) (hodd : ∀ x, rnd (Dy.neg x) = Dy.neg 
     (coef ax ay bx by' cx cy : Dy) :
     orientationIndexFilterC rnd coef bx by' ax ay cx cy
       = negIdx (orientationIndexFilterC rnd coef ax ay bx by' cx cy) := by
-  unfold orientationIndexFilterC filterTrace
-  simp only [fmul, fsub, fadd]
-  rw [Dy.mul_comm (rnd (Dy.sub bx cx)) (rnd (Dy.sub ay cy)), Dy.mul_comm (rnd (Dy.sub by' cy)) (rnd (Dy.sub ax cx))]
-  generalize rnd (Dy.mul (rnd (Dy.sub ax cx)) (rnd (Dy.sub by' cy))) = dl
-  generalize rnd (Dy.mul (rnd (Dy.sub ay cy)) (rnd (Dy.sub bx cx))) = dr
-  rw [Dy.sub_swap dl dr, hodd, Dy.abs_neg, Dy.add_comm dr dl]
-  split
-  · rw [signIdx_neg]
-    unfold negIdx
-    rw [if_neg (signIdx_ne_failure _)]
-  · simp [negIdx]
+  rw [filterC_eq_decideIdx, filterC_eq_decideIdx,
+    Dy.mul_comm (rnd (Dy.sub bx cx)) (rnd (Dy.sub ay cy)), Dy.mul_comm (rnd (Dy.sub by' cy)) (rnd (Dy.sub ax cx))]
+  exact decideIdx_swap rnd hodd coef _ _
 
 end GeosModel.Filter
